@@ -72,6 +72,8 @@ def cases(tier, seed):
     # fill-to-capacity: k-granule files added one per save/re-open until the disk refuses (the last files land in granules 60-67)
     for k in (2, 3, 5, 9):
         yield {"kind": "dsk", "hist": [x for i in range(68 // k + 1) for x in ("g{}".format(k), SAVE)], "fill": k}
+    # 68 one-granule files (more than the first eight directory sectors hold): eight at a time, then one by one until the disk refuses
+    yield {"kind": "dsk", "hist": (["g1"] * 8 + [SAVE]) * 8 + ["g1", SAVE] * 5, "fill": 1}
     yield {"kind": "dsk", "hist": [x for i in range(30) for x in ("g2", SAVE)] + ["g3", SAVE, "g3", SAVE, "g1", SAVE, "g1", SAVE, "g1", SAVE], "fill": "mix"}
     # every file kind at the lengths where its stored stream (header + data + trailer) meets a granule boundary
     for kindname in ("BAS", "DATB", "ML", "ASC", "DAT"):
@@ -312,7 +314,7 @@ def describe(tier):
                     "(add small / BASIC / ASCII / 30- and 40-granule files, re-open from bytes; additions that do not fit must be refused and leave the rest in place); ASCII files of 65535, 65536, 70000, 100000 bytes and of "
                     "exactly / one more than the whole disk (156671 / 156672 bytes) in 7 histories per medium; big-cassette histories with 65535-byte "
                     "files of 5 content patterns (incl. planted directory entries) crossing 161,280 bytes, and three files whose cassette image is "
-                    "exactly 161,280 bytes; fill-to-capacity histories (2-, 3-, 5-, 9-granule files and a mixture, one save/re-open per file, until the disk "
+                    "exactly 161,280 bytes; fill-to-capacity histories (1-, 2-, 3-, 5-, 9-granule files and a mixture, one save/re-open per file, until the disk "
                     "refuses)".format([C.brief(f) for f in ALPHA]),
         "bound": "all operation sequences of length <= {} (no leading or doubled save)".format(4 if tier == "thorough" else 3),
         "oracle": "after every save: the host file, parsed by the independent reader and re-opened by VirtualFile with the kind sniffed, lists "
